@@ -93,6 +93,9 @@ def handler(c):
     move = build_expr(c["expr"], leaves)
     out = {"type": type(move).__name__, "calls": []}
     for call in c["calls"]:
+        if call.get("relabel") == "roll":
+            for mv in leaves:
+                mv.set_labels(np.roll(np.asarray(mv.labels), 1))
         if call.get("presel") is not None and not hasattr(move, "moves"):
             move.to_displace_labels = call["presel"]
         before = atoms.positions.copy()
